@@ -76,7 +76,8 @@ def _prune(prefix, keep, n=3):
 
 def py_build(verbose=False):
     """Build (or reuse) the Cython extensions from /repo's working tree. Returns PYTHONPATH entry."""
-    hsh = _hash(_compiled_inputs(), extra=sys.version)
+    # a scratch tree (VERIF_REPO) never shares a build directory with /repo: its Python files differ
+    hsh = _hash(_compiled_inputs(), extra=sys.version + ("" if REPO == "/repo" else os.path.realpath(REPO)))
     name = "py-" + hsh
     dest = os.path.join(CACHE, name)
     with _Lock("py"):
@@ -102,7 +103,7 @@ def py_build(verbose=False):
             if verbose:
                 print("built extensions in %.1fs -> %s" % (time.time() - t0, dest))
         os.utime(dest)
-        _prune("py-", name)
+        _prune("py-", name, n=4)
     return os.path.join(dest, "src")
 
 
@@ -158,7 +159,7 @@ def native_lib(flavour="plain", hooks=False):
                 raise RuntimeError("native build failed: " + " ".join(cmd))
             os.rename(lib + ".tmp", lib)
         os.utime(dest)
-        _prune("nat-%s-" % flavour, name, n=2)
+        _prune("nat-%s-" % flavour, name, n=3)
     return lib
 
 
